@@ -247,6 +247,7 @@ package transport
 //@   callsite Write: [C05:assigned-id-on-wire] (c.t.opts.IsTCP ? len(arg1) == len(m) + 2 && BE16(arg1, 0) == uint16(len(m)) && BE16(arg1, 2) == qid && bytesEq(arg1, 4, m, 2, len(m) - 2)
 //@                                              : len(arg1) == len(m) && BE16(arg1, 0) == qid && bytesEq(arg1, 2, m, 2, len(m) - 2))
 //@   callsite Write: [C20:private-buffer] fresh(arg1)
+//@   callsite Write: [C05:on-this-connections-socket] arg0 == c.c
 
 // exchange: the waiter is registered under a channel no other exchange has, the ID put on the wire and
 // the ID removed afterwards are the one addQueueC assigned, the waiter is removed on every path, and a
